@@ -443,6 +443,76 @@ theorem C07_keeper_never_panics (M : Addr) (accts : List Addr) (pids : List Pool
     kstep M prm s op ≠ .panic :=
   kstep_no_panic M accts pids prm s op hw hwM hf0 hf1 h
 
+/-! ## Governance changes the parameters while pools exist
+
+`runOps` (used by `C07_custody` / `C07_shares_sum`) already lets every message run under its own parameter set,
+so custody — over ALL stored pools, whether still on the allowed list or not (`Inv.custody` sums over every pool
+id that ever exists) — and the shares sums hold across fee changes, de-listings and re-listings.  What the
+allowed-pools parameter does and does not control: -/
+
+/-- `Withdraw` consults no parameter: the same message has the same result under any two parameter sets —
+    whatever governance did to the fee or to the allowed-pools list since the deposit. -/
+theorem C07_withdraw_ignores_params (M : Addr) (prm prm' : Params) (s : KSt) (who : Addr) (shares : Int)
+    (dA : Denom) (minA : Int) (dB : Denom) (minB : Int) :
+    kstep M prm s (.withdraw who shares dA minA dB minB) = kstep M prm' s (.withdraw who shares dA minA dB minB) :=
+  rfl
+
+/-- Liquidity providers can always exit: on every invariant state, under every parameter set (the pool may have
+    been removed from the allowed list), a withdrawal of owned shares whose share value ⌊reserve·shares/total⌋
+    meets the message's own positive minimums succeeds. -/
+theorem C07_withdraw_available (M : Addr) (accts : List Addr) (pids : List PoolId) (prm : Params) (s : KSt)
+    (who : Addr) (shares : Int) (dA : Denom) (minA : Int) (dB : Denom) (minB : Int)
+    (hw : who ∈ accts) (hwM : who ≠ M) (h : Inv M accts pids s)
+    (hne : dA ≠ dB) (hs0 : 0 < shares) (hmA : 0 < minA) (hmB : 0 < minB)
+    (hown : shares ≤ s.sh who (poolId dA dB))
+    (r : Pool) (hr : s.pool (poolId dA dB) = some r)
+    (hvA : minA ≤ (if dB < dA then r.b else r.a) * shares / r.s)
+    (hvB : minB ≤ (if dB < dA then r.a else r.b) * shares / r.s) :
+    ∃ s', kstep M prm s (.withdraw who shares dA minA dB minB) = .ok s' :=
+  withdraw_available M accts pids s who shares dA minA dB minB hw hwM h hne hs0 hmA hmB hown r hr hvA hvB
+
+/-- … and it pays exactly the share value: the owner receives ⌊A·shares/S⌋ and ⌊B·shares/S⌋ of the stored
+    record (A, B, S), the module account pays exactly that, the record shrinks by exactly that. -/
+theorem C07_withdraw_pays_share_value (M : Addr) (prm : Params) (s s' : KSt) (who : Addr) (shares : Int)
+    (dA : Denom) (minA : Int) (dB : Denom) (minB : Int) (hwM : who ≠ M)
+    (hok : kstep M prm s (.withdraw who shares dA minA dB minB) = .ok s') :
+    ∃ r, s.pool (poolId dA dB) = some r ∧
+      s'.bal who (poolId dA dB).lo - s.bal who (poolId dA dB).lo = r.a * shares / r.s ∧
+      s'.bal who (poolId dA dB).hi - s.bal who (poolId dA dB).hi = r.b * shares / r.s ∧
+      s.bal M (poolId dA dB).lo - s'.bal M (poolId dA dB).lo = r.a * shares / r.s ∧
+      s.bal M (poolId dA dB).hi - s'.bal M (poolId dA dB).hi = r.b * shares / r.s := by
+  obtain ⟨r, p', wLo, wHi, hx⟩ := withdraw_ok M s s' who shares dA minA dB minB hok
+  simp only [] at hx
+  obtain ⟨hne, hr, ra, rb, rs, -, -, hrem, -, -, -, -, -, -, -, -, -, hbal⟩ := hx
+  obtain ⟨hlh, -⟩ := poolId_cases dA dB hne
+  have hhl : ¬ (poolId dA dB).hi = (poolId dA dB).lo := fun e => hlh e.symm
+  have hMw : ¬ M = who := fun e => hwM e.symm
+  obtain ⟨-, -, -, -, -, -, -, -, -, -, -, eLo, eHi⟩ :=
+    removeLiquidity_spec r p' shares wLo wHi (by omega) (by omega) hrem
+  generalize hpid : poolId dA dB = pid at *
+  refine ⟨r, hr, ?_, ?_, ?_, ?_⟩
+  · rw [hbal who pid.lo]; simp only [hMw, hwM, hlh, and_true, and_false, false_and, true_and, ite_true, ite_false]; omega
+  · rw [hbal who pid.hi]; simp only [hMw, hwM, hhl, and_true, and_false, false_and, true_and, ite_true, ite_false]; omega
+  · rw [hbal M pid.lo]; simp only [hMw, hwM, hlh, and_true, and_false, false_and, true_and, ite_true, ite_false]; omega
+  · rw [hbal M pid.hi]; simp only [hMw, hwM, hhl, and_true, and_false, false_and, true_and, ite_true, ite_false]; omega
+
+/-- The allowed-pools list gates pool CREATION only: every message on a pool that exists has the same result
+    whether or not the pool is (still) on the list — deposits into and swaps through a de-listed pool run
+    exactly as before, under the fee in force. -/
+theorem C07_allowed_list_gates_creation_only (M : Addr) (prm prm' : Params) (s : KSt) (op : Op)
+    (hfee : prm.fee = prm'.fee)
+    (hex : ∀ who dA xA dB xB slip, op = .deposit who dA xA dB xB slip → s.pool (poolId dA dB) ≠ none) :
+    kstep M prm s op = kstep M prm' s op := by
+  cases op with
+  | withdraw who sh dA mA dB mB => rfl
+  | swapExact who dI xI dO mO slip => simp only [kstep, swapExactForTokens, hfee]
+  | swapForExact who dI mI dO xO slip => simp only [kstep, swapForExactTokens, hfee]
+  | deposit who dA xA dB xB slip =>
+    have hp := hex who dA xA dB xB slip rfl
+    cases hr : s.pool (poolId dA dB) with
+    | none => exact absurd hr hp
+    | some r => simp only [kstep, deposit, depositPool, hr]
+
 /-! ## Non-vacuity: concrete states on which the hypotheses hold and the operations succeed -/
 
 def exPool : Pool := ⟨1000003, 2000001, 1414215⟩
